@@ -6,7 +6,9 @@ PATCH="$(realpath "$1")"; TIER="${2:-quick}"; shift; shift || true
 IDS="${*:-C01 C02 C03 C04 C05 C06 C07 C08 C09 C10 C11 C12 C13 C14 C15 C16 C17 C18 C19}"
 cd /verif
 git -C /repo apply "$PATCH" || { echo "patch does not apply"; exit 2; }
-cleanup() { git -C /repo checkout -- . ; git -C /repo clean -fdq packages 2>/dev/null; }
+# the evidence and replay files of the unchanged tree are put back afterwards
+BK=$(mktemp -d /tmp/mut_bk.XXXXXX); cp -a evidence "$BK/evidence"; [ -d replays ] && cp -a replays "$BK/replays"
+cleanup() { git -C /repo checkout -- . ; git -C /repo clean -fdq packages 2>/dev/null; rm -rf /verif/evidence /verif/replays; cp -a "$BK/evidence" /verif/evidence; [ -d "$BK/replays" ] && cp -a "$BK/replays" /verif/replays; rm -rf "$BK"; }
 trap cleanup EXIT
 trap 'cleanup; exit 143' INT TERM
 mkdir -p /tmp/mut_ev
